@@ -25,7 +25,8 @@ else:
     sh('git checkout -q -- . && git checkout -q --detach $(git -C /repo rev-parse HEAD)', cwd=W)
 # demo without the patch
 CXX = os.environ.get('SEED_DEMO_CXX', 'g++'); LIBS = os.environ.get('SEED_DEMO_LIBS', ''); RUN = os.environ.get('SEED_DEMO_RUN', '')
-demo_cmd = env + '%s -std=c++17 -I%s/include %s/demo.cpp -o /tmp/seedchk_demo %s && %s /tmp/seedchk_demo' % (CXX, W, src, LIBS, RUN)
+DEMO_BIN = '/tmp/seedchk_demo_' + name
+demo_cmd = env + '%s -std=c++17 -I%s/include %s/demo.cpp -o %s %s && %s %s' % (CXX, W, src, DEMO_BIN, LIBS, RUN, DEMO_BIN)
 rc0, o0 = sh(demo_cmd.replace('-I%s/include' % W, '-I/repo/include') if inplace else demo_cmd, cwd=W)
 if not inplace:
     rc, o = sh('git apply %s' % patch, cwd=W)
@@ -43,21 +44,21 @@ print('confirmed' if ok else 'NOT CONFIRMED', res['confirmed'])
 # run is reading /repo - a scratch worktree of /repo's HEAD that the runner is pointed at through VERIF_REPO
 res['checks'] = {}
 scratch = os.environ.get('SEED_SCRATCH') == '1'
-target = '/tmp/seedrepo' if scratch else '/repo'
+target = ('/tmp/seedrepo_' + name) if scratch else '/repo'
 if scratch:
-    sh('git -C /repo worktree remove --force /tmp/seedrepo; git -C /repo worktree prune; git -C /repo worktree add --detach /tmp/seedrepo HEAD -q')
+    sh('git -C /repo worktree remove --force %s; git -C /repo worktree prune; git -C /repo worktree add --detach %s HEAD -q' % (target, target))
 rc, o = sh('git -C %s apply %s' % (target, patch))
 if rc != 0: print('patch does not apply to', target, o); sys.exit(2)
 res['checked_against'] = 'scratch worktree of /repo HEAD with the patch applied (VERIF_REPO)' if scratch else '/repo working tree with the patch applied, restored afterwards'
 try:
     for c in checks:
         t0 = time.time()
-        rc, o = sh('%s./check %s --no-evidence %s' % ('VERIF_REPO=/tmp/seedrepo ' if scratch else '', c, ("--only '%s'" % only) if only else ''), cwd='/verif')
+        rc, o = sh('%s./check %s --no-evidence %s' % (('VERIF_REPO=%s ' % target) if scratch else '', c, ("--only '%s'" % only) if only else ''), cwd='/verif')
         viol = [l for l in o.split('\n') if l.startswith('VIOLATION')]
         res['checks'][c] = dict(exit=rc, violations=len(viol), first=viol[0][:400] if viol else None, seconds=round(time.time() - t0), tail=o.strip().split('\n')[-1][:300])
         print(c, 'exit', rc, len(viol), 'violations', viol[0][:300] if viol else o.strip().split('\n')[-1][:300])
 finally:
-    if scratch: sh('git -C /repo worktree remove --force /tmp/seedrepo; git -C /repo worktree prune')
+    if scratch: sh('git -C /repo worktree remove --force %s; git -C /repo worktree prune' % target)
     else: sh('git -C /repo checkout -- .')
 res['detected_by'] = [c for c, v in res['checks'].items() if v['exit'] == 1 and v['violations'] > 0]
 shutil.copy(patch, out); shutil.copy(os.path.join(src, 'demo.cpp'), out)
